@@ -37,6 +37,7 @@ META = {
 }
 
 SIG_STARVATION = "C07:rank-starvation"
+SIG_EMPTY_GROUP = "C07:rank-with-empty-parameter-group-refused"
 GLOBAL_SKIP = True      # step() skips only when NO block of the group has a gradient (F6 repaired in /repo)
 # for testing a candidate repair in a scratch copy only (like VERIF_REPO; registered commands never set these)
 if os.environ.get("VERIF_REPO", "/repo") != "/repo":
@@ -308,13 +309,16 @@ def run_serial_on_pieces(spec, init, grads, ranges, rounded=False, r=0):
     pieces = rank_pieces(shapes, ranges)
     groups = groups_of(spec)
     pgroups = [[i for i, pc in enumerate(pieces) if pc[0] in g] for g in groups]      # piece indices per parameter group
-    if not pieces or any(not pg for pg in pgroups):     # DistributedShampoo asserts that every group has a local block
-        return {"snaps": [], "blocks": [], "blocks_by_group": [[] for _ in groups], "pieces": pieces, "empty": True}
+    if not pieces:
+        return {"snaps": [], "blocks": [], "blocks_by_group": [[] for _ in groups], "pieces": pieces, "empty": True, "empty_groups": [True] * len(groups)}
     params = []
     for k, o, l, shp in pieces:
         a, b = ranges[k]
         params.append(torch.nn.Parameter(init[k].reshape(-1)[a:b][o:o + l].clone().view(shp)))
-    sspec = dict(spec, groups=pgroups) if spec.get("groups") else spec
+    # a parameter group without any recovered piece on this rank is simply absent from the reference ("ignored")
+    sspec = dict(spec, groups=[pg for pg in pgroups if pg],
+                 group_lr=[lr for lr, pg in zip(spec.get("group_lr") or [None] * len(groups), pgroups) if pg]) if spec.get("groups") else spec
+    live = [gi for gi, pg in enumerate(pgroups) if pg]
     ctx = mock.patch.object(Distributor, "update_params", rounded_update_params_factory(spec["cdtype"], spec["cp"])) if rounded else None
     snaps = []
     try:
@@ -322,19 +326,22 @@ def run_serial_on_pieces(spec, init, grads, ranges, rounded=False, r=0):
             ctx.__enter__()
         opt = make_optimizer(sspec, params, None)
         ptr = {p.untyped_storage().data_ptr(): i for i, p in enumerate(params)}
-        blocks, blocks_by_group = [], []
-        for gi, pg in enumerate(pgroups):
-            d = _distributor(opt, gi)
-            bg = []
+        blocks = []
+        blocks_by_group = [[] for _ in pgroups]
+        for li, gi in enumerate(live):
+            pg = pgroups[gi]
+            d = _distributor(opt, li)
+            bg = blocks_by_group[gi]
             for bl in d._global_blocked_params:
                 i = ptr[bl.untyped_storage().data_ptr()]
                 blocks.append((i, *_view_of(bl, params[i].storage_offset())))
                 bg.append((pg.index(i), *_view_of(bl, params[i].storage_offset())))     # piece index inside the group
-            blocks_by_group.append(bg)
         for t, pres in enumerate(spec["presence"]):
             for (k, o, l, shp), p in zip(pieces, params):
                 a, b = ranges[k]
-                p.grad = grad_values(spec, grads, t, k, a, b, r)[o:o + l].clone().view(shp) if pres[k] else None
+                # same values AND same element strides as the piece's gradient has inside the shard's gradient (a strided
+                # operand selects other BLAS kernels: last-bit differences that are not the distributor's doing)
+                p.grad = place([grad_values(spec, grads, t, k, a, b, r)[o:o + l].clone()], "strided" if spec.get("layout") == "strided" else "fresh")[0].view(shp) if pres[k] else None
             opt.step()
             snap = []
             for k in range(len(shapes)):
@@ -347,7 +354,7 @@ def run_serial_on_pieces(spec, init, grads, ranges, rounded=False, r=0):
     finally:
         if ctx is not None:
             ctx.__exit__(None, None, None)
-    return {"snaps": snaps, "blocks": blocks, "blocks_by_group": blocks_by_group, "pieces": pieces, "empty": False}
+    return {"snaps": snaps, "blocks": blocks, "blocks_by_group": blocks_by_group, "pieces": pieces, "empty": False, "empty_groups": [not pg for pg in pgroups]}
 
 
 def run_fsdp_cluster(spec, cuts_ranges, rounded=False, timeout=5.0):
@@ -698,78 +705,109 @@ class _Stub:
 
 
 def metadata_work(cases):
-    """cases: {"shapes", "pad": alignment padding after each parameter, "world"}.  For every rank: shard infos from torch's
-    own FlatParamHandle._get_shard_metadata (called on a stub with the attributes it reads), then
-    compile_fsdp_parameter_metadata on stub FSDP modules (objects with exactly the attributes it reads)."""
+    """cases: {"shapes", "pad": alignment padding after each parameter, "world"[, "extra": {"shapes", "pad"} - a second, nested
+    FSDP module with its own flat parameter]}.  For every rank: shard infos from torch's own FlatParamHandle._get_shard_metadata
+    (called on a stub with the attributes it reads), then compile_fsdp_parameter_metadata on stub FSDP modules (objects with
+    exactly the attributes it reads).  Returns per case a list (one entry per flat parameter) of {"ps", "ranks"}."""
     import torch
     from unittest import mock
     from torch.distributed.fsdp._flat_param import FlatParamHandle
     from torch.distributed.fsdp import ShardingStrategy
     import distributed_shampoo.utils.shampoo_fsdp_utils as fu
-    out = []
-    for c in cases:
-        shapes, pads, W = c["shapes"], c["pad"], c["world"]
-        numels_with_padding, mask = [], []
+
+    def flat_geometry(shapes, pads, W):
+        numels_with_padding, mask, ps, off = [], [], [], 0
         for sh, pd in zip(shapes, pads):
             numels_with_padding.append(math.prod(sh))
             mask.append(False)
+            ps.append(off)
+            off += math.prod(sh) + pd
             if pd:
                 numels_with_padding.append(pd)
                 mask.append(True)
-        total = sum(numels_with_padding)
-        chunk = -(-total // W)
         handle = _Stub(flat_param=_Stub(_numels_with_padding=tuple(numels_with_padding), _is_padding_mask=mask))
         handle._get_flat_param_offsets = lambda h=handle: FlatParamHandle._get_flat_param_offsets(h)
-        ps = []
-        off = 0
-        for sh, pd in zip(shapes, pads):
-            ps.append(off)
-            off += math.prod(sh) + pd
-        ranks = []
+        return handle, ps, -(-sum(numels_with_padding) // W)
+
+    out = []
+    for c in cases:
+        W = c["world"]
+        flats = [{"shapes": c["shapes"], "pad": c["pad"]}] + ([c["extra"]] if c.get("extra") else [])
+        strategies = [ShardingStrategy.FULL_SHARD, ShardingStrategy.HYBRID_SHARD]
+        geo = [flat_geometry(f["shapes"], f["pad"], W) for f in flats]
+        per_flat = [{"ps": g[1], "ranks": []} for g in geo]
         for r in range(W):
-            us, ue = r * chunk, (r + 1) * chunk - 1
-            try:
-                infos = FlatParamHandle._get_shard_metadata(handle, us, ue)
-            except Exception as e:  # noqa
-                ranks.append({"error": type(e).__name__ + ": " + str(e)[:100]})
-                continue
-            params = [torch.nn.Parameter(torch.zeros(0)) for _ in shapes]
-            flat = _Stub(_fqns=[f"m.p{k}" for k in range(len(shapes))], _shapes=[torch.Size(s) for s in shapes],
-                         _numels=[math.prod(s) for s in shapes], _shard_param_infos=infos, _params=params)
-            mods = [_Stub(_flat_param=None, sharding_strategy=ShardingStrategy.NO_SHARD),
-                    _Stub(_flat_param=flat, sharding_strategy=ShardingStrategy.FULL_SHARD)]
+            mods = [_Stub(_flat_param=None, sharding_strategy=ShardingStrategy.NO_SHARD)]
+            recs = []
+            for fi, (f, (handle, ps, chunk)) in enumerate(zip(flats, geo)):
+                us, ue = r * chunk, (r + 1) * chunk - 1
+                try:
+                    infos = FlatParamHandle._get_shard_metadata(handle, us, ue)
+                except Exception as e:  # noqa
+                    recs.append({"error": type(e).__name__ + ": " + str(e)[:100]})
+                    continue
+                params = [torch.nn.Parameter(torch.zeros(0)) for _ in f["shapes"]]
+                flat = _Stub(_fqns=[f"m{fi}.p{k}" for k in range(len(params))], _shapes=[torch.Size(s) for s in f["shapes"]],
+                             _numels=[math.prod(s) for s in f["shapes"]], _shard_param_infos=infos, _params=params)
+                mods.append(_Stub(_flat_param=flat, sharding_strategy=strategies[fi]))
+                recs.append({"us": us, "ue": ue, "infos": [tuple(i) for i in infos], "params": params})
             with mock.patch.object(fu.FSDP, "fsdp_modules", staticmethod(lambda module, root_only=False: mods)):
                 md = fu.compile_fsdp_parameter_metadata(_Stub())
-            metas = []
-            for k, p in enumerate(params):
-                m = md[p]
-                metas.append({"shape": [int(x) for x in m.shape], "numel": int(m.numel), "start": int(m.start_idx), "end": int(m.end_idx),
-                              "fqn_ok": m.fqn == f"m.p{k}", "strategy_ok": m.sharding_strategy == ShardingStrategy.FULL_SHARD})
-            ranks.append({"us": us, "ue": ue, "infos": [tuple(i) for i in infos], "metas": metas, "n_keys": len(md)})
-        out.append({"ps": ps, "ranks": ranks})
+            nkeys = sum(len(rc["params"]) for rc in recs if "params" in rc)
+            for fi, rc in enumerate(recs):
+                if "error" not in rc:
+                    metas = []
+                    for k, p in enumerate(rc.pop("params")):
+                        m = md[p]
+                        metas.append({"shape": [int(x) for x in m.shape], "numel": int(m.numel), "start": int(m.start_idx), "end": int(m.end_idx),
+                                      "fqn_ok": m.fqn == f"m{fi}.p{k}", "strategy_ok": m.sharding_strategy == strategies[fi]})
+                    rc["metas"] = metas
+                    rc["n_keys_ok"] = len(md) == nkeys
+                per_flat[fi]["ranks"].append(rc)
+        out.append(per_flat)
     return out
+
+
+def metadata_params_none_rejected():
+    """use_orig_params=False leaves flat_param._params None: compile_fsdp_parameter_metadata must refuse (AssertionError)."""
+    from unittest import mock
+    from torch.distributed.fsdp import ShardingStrategy
+    import distributed_shampoo.utils.shampoo_fsdp_utils as fu
+    flat = _Stub(_fqns=["p"], _shapes=[(2,)], _numels=[2], _shard_param_infos=((True, 0, 2, 0, 1),), _params=None)
+    mods = [_Stub(_flat_param=flat, sharding_strategy=ShardingStrategy.FULL_SHARD)]
+    with mock.patch.object(fu.FSDP, "fsdp_modules", staticmethod(lambda module, root_only=False: mods)):
+        try:
+            fu.compile_fsdp_parameter_metadata(_Stub())
+        except AssertionError:
+            return "AssertionError"
+        except Exception as e:  # noqa
+            return type(e).__name__
+    return "accepted"
 
 
 def copt(x):
     return "None" if x is None else f"(Some {int(x)})" if int(x) >= 0 else f"(Some ({int(x)}))"
 
 
-def metadata_case_coq(c, obs):
+def metadata_case_coq(c, obs_flats):
     terms = []
-    for rk in obs["ranks"]:
-        if "error" in rk:
-            terms.append("false")
-            continue
-        ok_py = rk["n_keys"] == len(c["shapes"]) and all(m["fqn_ok"] and m["strategy_ok"] for m in rk["metas"])
-        for k, sh in enumerate(c["shapes"]):
-            i = rk["infos"][k]
-            m = rk["metas"][k]
-            terms.append(f"andb {coq_bool(ok_py)} (agree_metadata {cz(sh)} {math.prod(sh)} {obs['ps'][k]} {rk['us']} {rk['ue']} "
-                         f"({coq_bool(i[0])}, {copt(i[1])}, {copt(i[2])}, {copt(i[3])}, {copt(i[4])}) (mkMeta {cz(m['shape'])} {m['numel']} {m['start']} {m['end']}))")
-    # the metadata of all ranks partitions every parameter (checked on the IMPLEMENTATION's output)
-    for k, sh in enumerate(c["shapes"]):
-        rs = [(rk["metas"][k]["start"], rk["metas"][k]["end"]) for rk in obs["ranks"] if "error" not in rk]
-        terms.append(f"partitionb {math.prod(sh)} {cl(f'({a}, {b})' for a, b in rs)}")
+    flats = [{"shapes": c["shapes"], "pad": c["pad"]}] + ([c["extra"]] if c.get("extra") else [])
+    for f, obs in zip(flats, obs_flats):
+        for rk in obs["ranks"]:
+            if "error" in rk:
+                terms.append("false")
+                continue
+            ok_py = rk["n_keys_ok"] and all(m["fqn_ok"] and m["strategy_ok"] for m in rk["metas"])
+            for k, sh in enumerate(f["shapes"]):
+                i = rk["infos"][k]
+                m = rk["metas"][k]
+                terms.append(f"andb {coq_bool(ok_py)} (agree_metadata {cz(sh)} {math.prod(sh)} {obs['ps'][k]} {rk['us']} {rk['ue']} "
+                             f"({coq_bool(i[0])}, {copt(i[1])}, {copt(i[2])}, {copt(i[3])}, {copt(i[4])}) (mkMeta {cz(m['shape'])} {m['numel']} {m['start']} {m['end']}))")
+    # the metadata of all ranks partitions every parameter (checked on the IMPLEMENTATION's output); these terms come last
+    for f, obs in zip(flats, obs_flats):
+        for k, sh in enumerate(f["shapes"]):
+            rs = [(rk["metas"][k]["start"], rk["metas"][k]["end"]) for rk in obs["ranks"] if "error" not in rk]
+            terms.append(f"partitionb {math.prod(sh)} {cl(f'({a}, {b})' for a, b in rs)}")
     return terms
 
 
@@ -797,6 +835,10 @@ def gen_metadata_cases(ck: Check):
         k = rng.randint(1, 4)
         shapes = [list(rng.choice(pool)) for _ in range(k)]
         cases.append({"shapes": shapes, "pad": [rng.choice((0, 0, 1, 3)) for _ in range(k)], "world": rng.randint(1, 8)})
+    for _ in range(200 if thorough else 40):      # nested FSDP modules: a second flat parameter, sharded on its own
+        k1, k2 = rng.randint(1, 3), rng.randint(1, 3)
+        cases.append({"shapes": [list(rng.choice(pool)) for _ in range(k1)], "pad": [rng.choice((0, 0, 2)) for _ in range(k1)], "world": rng.randint(1, 8),
+                      "extra": {"shapes": [list(rng.choice(pool)) for _ in range(k2)], "pad": [rng.choice((0, 0, 1)) for _ in range(k2)]}})
     return cases
 
 
@@ -824,7 +866,7 @@ def fsdp_static_terms(spec, ranges, rk, ref):
         gms = cmetas(gshapes, granges)
         if rk["layouts"] is not None:
             t_layout.append(clayout(thr, merge, gshapes, granges, rk["layouts"][gi]))
-        if not ref["empty"]:
+        if not ref["empty"] and not ref["empty_groups"][gi]:
             t_pb.append(f"agree_piece_blocks {thr} {coq_bool(merge)} {gms} {cl(cbview(b) for b in ref['blocks_by_group'][gi])}")
         t_ctor.append(f"fsdp_ctor_ok (fsdp_init {thr} {coq_bool(merge)} {gms})")
     return t_pieces, t_layout, t_pb, ms, t_ctor
@@ -860,7 +902,7 @@ def fsdp_work(args):
             layout_t += b + ([coq_bool(bool(rk["rank_seen"]))] if rk["layout"] is not None else [])
             pb_t += c
             ctor_t.append(f"Bool.eqb (ball {cl(ct)}) {coq_bool(rk['ctor'] == 'ok')}")
-            ctor_t.append(coq_bool((rk["ctor"] == "ok") == (not refs[r]["empty"])))
+            ctor_t.append(coq_bool((rk["ctor"] == "ok") == (not any(refs[r]["empty_groups"]))))
             ranks_t.append(rank_obs_coq(cr[r], rk["layout"], rk["snaps"], refs[r]["snaps"], len(shapes)))
         numels = cz(math.prod(s) for s in shapes)
         out["coq"] = (f"Definition ranks_{i} : list rank_obs := {cl(ranks_t)}.\n"
@@ -1082,7 +1124,7 @@ def gen_hsdp_scenarios(ck: Check):
                     total = sum(math.prod(s) for s in shapes)
                     cuts = random_cuts(rng, total, S, ("chunks", "random")[rng.randrange(2)])
                     spec = {"shapes": [list(s) for s in shapes], "cuts": cuts, "maxdim": rng.choice((2, 2, 3, 4)), "merge": rng.random() < 0.7,
-                            "R": R, "S": S, "gs": gs, "cp": cp, "cdtype": dtypes[(n + v) % len(dtypes)], "gs_default": bool(gs == R and rng.random() < 0.5),
+                            "R": R, "S": S, "gs": gs, "cp": cp, "cdtype": dtypes[len(specs) % len(dtypes)], "gs_default": bool(gs == R and rng.random() < 0.5),
                             "opt": opts[(n + v) % len(opts)], "seed": rng.randrange(1 << 30)}
                     cr = [rank_ranges(spec, j) for j in range(S)]
                     cols = [column_structure(spec, r) for r in cr]
@@ -1107,6 +1149,217 @@ def gen_hsdp_scenarios(ck: Check):
 F6_HSDP_MINIMAL = {"shapes": [[4], [4], [4]], "cuts": [0, 12], "maxdim": 4, "merge": True, "R": 2, "S": 1, "gs": 2, "cp": False, "cdtype": "FP32",
                    "gs_default": True, "opt": "shampoo_adagrad", "presence": [[True, True, True], [True, False, True], [True, True, True]],
                    "kind": "starve", "seed": 7}
+
+
+# --------------------------------------------------------------------------------------
+# quantifier audit: targeted scenarios for every input class the property's quantifier names or plainly allows and that
+# the sampled generators above do not (reliably) produce in the quick tier.  spec["audit"] lists the classes of a scenario.
+
+
+def _cuts_mid(rng, shapes, W):
+    total = sum(math.prod(s) for s in shapes)
+    return random_cuts(rng, total, W, "random")
+
+
+def gen_audit_fsdp(ck: Check):
+    rng = ck.rng
+    specs = []
+
+    def add(classes, shapes, W=None, cuts=None, **kw):
+        shapes = [tuple(s) for s in shapes]
+        T = kw.pop("T", 4)
+        kind = kw.pop("kind", "random")
+        pres = kw.pop("presence", None) or gen_presence_simple(rng, kind, len(shapes), T)
+        spec = {"shapes": [list(s) for s in shapes], "cuts": list(cuts) if cuts else _cuts_mid(rng, shapes, W or 2), "maxdim": kw.pop("maxdim", rng.choice((2, 3, 4))),
+                "merge": kw.pop("merge", rng.random() < 0.7), "opt": kw.pop("opt", rng.choice(list(OPT_CONFIGS))), "presence": pres, "kind": kind,
+                "family": "audit", "audit": list(classes), "seed": rng.randrange(1 << 30), "cdtype": "FP32", "cp": False}
+        spec.update(kw)
+        specs.append(spec)
+
+    # shapes: order 4, trailing / inner singleton dimensions (1x1 kernels, (n,1) weights), larger inner rows
+    for shapes, W in (([(2, 2, 1, 2), (3,)], 2), ([(2, 3, 2, 2)], 3), ([(2, 2, 2, 2), (4, 1)], 3), ([(3, 2, 2, 2)], 2)):
+        add(["shape_order_4"] + (["shape_singleton_dims"] if any(1 in s for s in shapes) else []), shapes, W)
+    for shapes, W in (([(4, 1), (3, 2, 1)], 2), ([(2, 3, 1, 1)], 3), ([(5, 1), (1, 4)], 2), ([(3, 1, 1), (2, 2)], 2)):
+        add(["shape_singleton_dims"], shapes, W)
+    for shapes, W in (([(6, 8)], 3), ([(2, 6, 8)], 3), ([(3, 4, 5)], 4)):
+        add(["shape_large_inner_rows"], shapes, W, maxdim=4, T=3)
+    # 5..8 shard ranks
+    for W in (5, 6, 7, 8):
+        k = rng.randint(3, 4)
+        add(["shard_ranks_5_to_8"], [rng.choice(POOL) for _ in range(k)], W, kind=("full", "random", "late", "only_some")[W % 4])
+    # parameter / preconditioner dtypes
+    for pd, opt in (("float64", "shampoo_adam"), ("float64", "soap"), ("bfloat16", "shampoo_adagrad"), ("bfloat16", "shampoo_adam"), ("float16", "shampoo_adagrad"), ("float16", "shampoo_adam")):
+        add([f"param_dtype_{pd}"], [rng.choice(POOL) for _ in range(3)], rng.choice((2, 3)), pdtype=pd, opt=opt)
+    for opt in ("shampoo_adam", "soap"):
+        add(["preconditioner_dtype_float64"], [rng.choice(POOL) for _ in range(3)], 2, precond_dtype="float64", opt=opt)
+    # PRESENT gradients that are exactly zero: on a rank's whole shard, on one parameter, on an element range, everywhere
+    for z, cls in (({"steps": [1, 2], "rank": 0}, "zero_grad_on_a_ranks_shard"), ({"steps": [0, 1, 2, 3], "rank": 1}, "zero_grad_on_a_ranks_shard"),
+                   ({"steps": [0, 2], "param": 0}, "zero_grad_on_a_parameter"), ({"steps": [1], "param": 1, "lo": 0, "hi": 2}, "zero_grad_on_an_element_range"),
+                   ({"steps": [0], }, "zero_grad_everywhere_first_step"), ({"steps": [2]}, "zero_grad_everywhere_later_step")):
+        add([cls], [(3, 4), (2, 3), (5,)], 2, cuts=[0, 7, 23], zero=z, kind="full", opt=rng.choice(("shampoo_adagrad", "shampoo_adam", "shampoo_rmsprop")))
+    # magnitudes
+    for sc in (1e-5, 1e-5, 1e-20, 1e4):
+        add(["grad_magnitude_tiny" if sc < 1 else "grad_magnitude_large"], [rng.choice(POOL) for _ in range(3)], 2, grad_scale=sc, kind="full")
+    # memory layout: parameters/gradients are views at non-zero offsets of one flat buffer (as FSDP's use_orig_params views); strided gradients
+    for _ in range(4):
+        add(["params_are_views_of_a_flat_buffer"], [rng.choice(POOL) for _ in range(3)], rng.choice((2, 3)), layout="flat_views")
+    for _ in range(3):
+        add(["grad_non_contiguous"], [rng.choice(POOL) for _ in range(3)], 2, layout="strided")
+    # two equal-shaped parameters whose gradients alternate (same number of gradients every step, different pattern)
+    for sh, cuts in (((3, 4), [0, 10, 24]), ((2, 2, 3), [0, 12, 24]), ((5,), [0, 3, 10])):
+        add(["twin_parameters_alternating_gradients"], [sh, sh], cuts=cuts, presence=[[t % 2 == 0, t % 2 == 1] for t in range(5)], kind="alternate")
+    # parameter groups: twins with identical hyper-parameters, and different learning rates
+    add(["twin_parameter_groups"], [(3, 4), (3, 4)], cuts=[0, 10, 24], groups=[[0], [1]], kind="full")
+    add(["twin_parameter_groups"], [(3, 4), (5,), (3, 4), (5,)], cuts=[0, 14, 34], groups=[[0, 1], [2, 3]], kind="random")
+    add(["twin_parameter_groups"], [(2, 3), (2, 3)], cuts=[0, 4, 12], groups=[[0], [1]], presence=[[t % 2 == 0, t % 2 == 1] for t in range(4)], kind="alternate")
+    add(["parameter_groups_different_lr"], [(3, 4), (2, 3), (5,)], cuts=[0, 9, 23], groups=[[0, 2], [1]], group_lr=[0.01, 0.05], kind="random")
+    # a second run in the same process
+    add(["second_run_same_process"], [(3, 4), (5,)], cuts=[0, 7, 17], twice=True)
+    add(["second_run_same_process"], [(2, 2, 3), (2, 3)], cuts=[0, 5, 5, 18], twice=True)
+    # block size 1, long histories (several refreshes past start_preconditioning_step)
+    add(["max_preconditioner_dim_1"], [(3, 4), (5,)], 2, maxdim=1)
+    add(["max_preconditioner_dim_1"], [(2, 2, 3)], 3, maxdim=1, merge=False)
+    for opt in ("shampoo_rmsprop", "soap"):
+        add(["long_history"], [rng.choice(POOL) for _ in range(3)], 2, T=8, opt=opt, kind="random")
+    return specs
+
+
+def gen_audit_hsdp(ck: Check):
+    from harness.c06 import gen_presence
+    rng = ck.rng
+    specs = []
+
+    def add(classes, shapes, cuts, R, gs, **kw):
+        T = kw.pop("T", 4)
+        spec = {"shapes": [list(s) for s in shapes], "cuts": list(cuts), "maxdim": kw.pop("maxdim", 2), "merge": kw.pop("merge", True), "R": R, "S": len(cuts) - 1,
+                "gs": gs, "cp": kw.pop("cp", False), "cdtype": kw.pop("cdtype", "FP32"), "gs_default": False, "opt": kw.pop("opt", rng.choice(list(OPT_CONFIGS))),
+                "seed": rng.randrange(1 << 30), "family": "audit", "audit": list(classes)}
+        spec.update(kw)
+        cr = [rank_ranges(spec, j) for j in range(spec["S"])]
+        cols = [column_structure(spec, r) for r in cr]
+        if not all(gs <= len(c["numels"]) for c in cols):
+            return
+        if "presence" not in spec:
+            kind = kw.get("kind", "random")
+            spec["presence"] = gen_presence(rng, kind, len(shapes), cols[0]["nbp"], cols[0]["owners"], gs, T)
+            spec["kind"] = kind
+        spec.setdefault("kind", "given")
+        specs.append(spec)
+
+    # blocks whose byte size is not a multiple of 64 and differs between blocks: padded buffers, non-round-robin owners
+    add(["hsdp_block_bytes_not_multiple_of_64", "hsdp_unequal_block_sizes"], [(5, 5), (7,), (3, 4), (2, 3)], [0, 50], 2, 2, maxdim=1024)
+    add(["hsdp_block_bytes_not_multiple_of_64", "hsdp_unequal_block_sizes"], [(5, 5), (7,), (3, 4), (6,)], [0, 30, 50], 2, 2, maxdim=5, cp=True, cdtype="BF16")
+    add(["hsdp_block_bytes_not_multiple_of_64", "hsdp_unequal_block_sizes"], [(6, 7), (5,), (3, 3)], [0, 30, 56], 3, 3, maxdim=4, kind="starve")
+    add(["hsdp_block_bytes_not_multiple_of_64", "hsdp_unequal_block_sizes"], [(5, 5), (3,), (6, 3), (7,)], [0, 53], 4, 2, maxdim=1024, merge=False, cdtype="FP16", kind="late")
+    # parameter dtype other than the communication dtype
+    add(["param_dtype_float64", "hsdp_comm_narrower_than_params"], [(3, 4), (5,), (2, 3)], [0, 10, 23], 2, 2, pdtype="float64", cdtype="FP32", opt="shampoo_adam")
+    add(["param_dtype_float64", "hsdp_comm_narrower_than_params"], [(3, 4), (5,), (2, 3)], [0, 23], 2, 2, pdtype="float64", cdtype="BF16", cp=True, opt="shampoo_adagrad")
+    add(["param_dtype_bfloat16"], [(3, 4), (5,), (2, 3)], [0, 12, 23], 2, 2, pdtype="bfloat16", cdtype="FP32", opt="shampoo_adagrad")
+    add(["param_dtype_bfloat16"], [(3, 4), (5,), (2, 3)], [0, 23], 2, 1, pdtype="bfloat16", cdtype="BF16", cp=True, opt="shampoo_adam")
+    add(["param_dtype_float16"], [(3, 4), (5,), (2, 3)], [0, 23], 2, 2, pdtype="float16", cdtype="FP16", opt="shampoo_adagrad")
+    # present-but-zero gradients on a shard column / tiny gradients
+    add(["zero_grad_on_a_ranks_shard"], [(3, 4), (2, 3), (5,)], [0, 9, 23], 2, 2, zero={"steps": [1, 2], "rank": 0}, kind="full")
+    add(["zero_grad_on_a_parameter"], [(3, 4), (2, 3), (5,)], [0, 23], 2, 2, zero={"steps": [0, 2], "param": 1}, kind="full", cp=True)
+    add(["grad_magnitude_tiny"], [(3, 4), (2, 3), (5,)], [0, 12, 23], 2, 2, grad_scale=1e-5, cdtype="FP16")
+    # memory layout, interleavings, larger replicate groups
+    add(["params_are_views_of_a_flat_buffer"], [(3, 4), (2, 3), (5,)], [0, 10, 23], 2, 2, layout="flat_views")
+    add(["grad_non_contiguous"], [(3, 4), (2, 3), (5,)], [0, 23], 2, 2, layout="strided", cp=True)
+    add(["rank_interleaving_jitter"], [(3, 4), (2, 3), (5,)], [0, 10, 23], 4, 2, jitter=True, kind="starve")
+    add(["rank_interleaving_jitter"], [(3, 4), (2, 3), (5,), (4, 2)], [0, 31], 4, 4, jitter=True, kind="random", cp=True)
+    add(["rank_interleaving_jitter"], [(3, 4), (2, 3), (5,)], [0, 8, 16, 23], 2, 2, jitter=True, kind="late")
+    add(["replicate_size_above_4"], [(3, 4), (2, 3), (5,)], [0, 23], 6, 3, kind="starve")
+    add(["replicate_size_above_4"], [(3, 4), (2, 3), (5,)], [0, 23], 5, 5, kind="random", cdtype="BF16")
+    # twins alternating inside one communication group; order-4 / singleton-dimension shapes
+    add(["twin_parameters_alternating_gradients"], [(3, 4), (3, 4)], [0, 24], 2, 2, presence=[[t % 2 == 0, t % 2 == 1] for t in range(5)])
+    add(["twin_parameters_alternating_gradients"], [(2, 3), (2, 3)], [0, 5, 12], 2, 2, presence=[[t % 2 == 0, t % 2 == 1] for t in range(4)], cp=True)
+    add(["shape_order_4", "shape_singleton_dims"], [(2, 2, 1, 2), (3, 1)], [0, 5, 11], 2, 2)
+    add(["shape_order_4"], [(2, 3, 2, 2)], [0, 9, 24], 2, 2, maxdim=2)
+    return specs
+
+
+def gen_audit_layout(ck: Check):
+    rng = ck.rng
+    cases = []
+    big = [(3, 4, 5), (2, 3, 2, 2), (3, 3, 3), (2, 6, 8), (2, 2, 3, 1), (4, 1, 1), (1, 1, 5), (3, 2, 1, 2), (2, 2, 2, 3)]
+    per = 60 if ck.tier == "thorough" else 24
+    for sh in big:
+        N = math.prod(sh)
+        for _ in range(per):
+            s = rng.randint(0, N)
+            e = rng.randint(s, N)
+            cases.append({"shapes": [list(sh)], "ranges": [(s, e)], "maxdim": rng.choice((1, 2, 3, 4, 1024)), "merge": rng.random() < 0.6, "family": "audit-order-3-4"})
+    return cases
+
+
+def quantifier_audit(lcases, mcases, fev, hev, none_outcome):
+    """Measured number of generated (and evaluated) cases per input class named or allowed by the property's quantifier."""
+    def cnt(rs, pred):
+        return sum(1 for r in rs if pred(r["spec"]))
+
+    def has(cls):
+        return lambda s: cls in s.get("audit", ())
+
+    def midrow(s):
+        offs = param_offsets(s["shapes"])
+        for c in s["cuts"][1:-1]:
+            for k, sh in enumerate(s["shapes"]):
+                row = math.prod(sh[1:]) if len(sh) > 1 else 1
+                if offs[k] < c < offs[k + 1] and row > 1 and (c - offs[k]) % row:
+                    return True
+        return False
+
+    runs = fev + hev
+    q = {}
+    for o in (1, 2, 3, 4):
+        q[f"layout_shape_order_{o}"] = sum(1 for c in lcases if any(len(sh) == o for sh in c["shapes"]))
+        q[f"run_shape_order_{o}"] = cnt(runs, lambda s, o=o: any(len(sh) == o for sh in s["shapes"]))
+    q["layout_shape_with_singleton_dims"] = sum(1 for c in lcases if any(1 in sh and len(sh) > 1 for sh in c["shapes"]))
+    q["layout_shape_trailing_singleton"] = sum(1 for c in lcases if any(len(sh) > 1 and sh[-1] == 1 for sh in c["shapes"]))
+    q["run_shape_with_singleton_dims"] = cnt(runs, lambda s: any(1 in sh and len(sh) > 1 for sh in s["shapes"]))
+    q["run_shape_trailing_singleton"] = cnt(runs, lambda s: any(len(sh) > 1 and sh[-1] == 1 for sh in s["shapes"]))
+    q["layout_empty_shard_start_eq_end_nonzero"] = sum(1 for c in lcases if any(a == b and a > 0 for a, b in c["ranges"]))
+    q["layout_shard_inside_one_row"] = sum(1 for c in lcases for sh, (a, b) in zip(c["shapes"], c["ranges"]) if len(sh) > 1 and a < b and a // math.prod(sh[1:]) == (b - 1) // math.prod(sh[1:]) and (b - a) < math.prod(sh[1:]))
+    for w in range(1, 9):
+        q[f"fsdp_shard_ranks_{w}"] = cnt(fev, lambda s, w=w: len(s["cuts"]) - 1 == w)
+        q[f"metadata_world_{w}"] = sum(1 for c in mcases if c["world"] == w)
+    q["fsdp_mid_row_cut"] = cnt(fev, midrow)
+    q["fsdp_rank_with_all_shards_empty"] = sum(1 for r in fev if "AssertionError" in r["summary"]["ctor"])
+    q["fsdp_empty_parameter_shard_on_a_working_rank"] = sum(1 for r in fev if any(c == "ok" and any(a == b for a, b in rr) for c, rr in zip(r["summary"]["ctor"], r["summary"]["ranges"])))
+    q["fsdp_empty_rank_interval_in_the_middle"] = cnt(fev, lambda s: any(s["cuts"][i] == s["cuts"][i + 1] for i in range(1, len(s["cuts"]) - 2)))
+    q["fsdp_equal_chunks_with_padding"] = cnt(fev, lambda s: s.get("family") == "multi-chunks")
+    for o in OPT_CONFIGS:
+        q[f"optimizer_{o}"] = cnt(runs, lambda s, o=o: s["opt"] == o)
+    q["merge_dims_off"] = cnt(runs, lambda s: not s.get("merge", True))
+    for m in (1, 2, 3, 4, 1024):
+        q[f"max_preconditioner_dim_{m}"] = cnt(runs, lambda s, m=m: s["maxdim"] == m)
+    for d in ("float32", "float64", "bfloat16", "float16"):
+        q[f"param_dtype_{d}"] = cnt(runs, lambda s, d=d: s.get("pdtype", "float32") == d)
+    q["preconditioner_dtype_float64"] = cnt(runs, lambda s: s.get("precond_dtype") == "float64")
+    for k in ("full", "random", "late", "none_step", "only_some", "starve", "alternate"):
+        q[f"history_{k}"] = cnt(runs, lambda s, k=k: s.get("kind") == k)
+    q["history_step_with_only_empty_shard_gradients"] = sum(1 for r in fev for ci, rr in enumerate(r["summary"]["ranges"]) if r["summary"]["ctor"][ci] == "ok"
+                                                             and any(any(p) and not any(p[k] for k, (a, b) in enumerate(rr) if a < b) for p in r["spec"]["presence"]))
+    q["history_8_steps"] = cnt(runs, lambda s: len(s["presence"]) >= 8)
+    for c in ("zero_grad_on_a_ranks_shard", "zero_grad_on_a_parameter", "zero_grad_on_an_element_range", "zero_grad_everywhere_first_step", "zero_grad_everywhere_later_step",
+              "grad_magnitude_tiny", "grad_magnitude_large", "params_are_views_of_a_flat_buffer", "grad_non_contiguous", "twin_parameters_alternating_gradients",
+              "twin_parameter_groups", "parameter_groups_different_lr", "second_run_same_process", "long_history", "shape_large_inner_rows"):
+        q[c] = cnt(runs, has(c))
+    q["hsdp_replicate_size"] = {str(R): cnt(hev, lambda s, R=R: s["R"] == R) for R in sorted({r["spec"]["R"] for r in hev})}
+    q["hsdp_num_trainers_per_group"] = {str(g): cnt(hev, lambda s, g=g: s["gs"] == g) for g in sorted({r["spec"]["gs"] for r in hev})}
+    q["hsdp_num_trainers_default_minus_1"] = cnt(hev, lambda s: s.get("gs_default"))
+    q["hsdp_shard_size"] = {str(S): cnt(hev, lambda s, S=S: s["S"] == S) for S in sorted({r["spec"]["S"] for r in hev})}
+    q["hsdp_communication_dtype"] = {d: cnt(hev, lambda s, d=d: s["cdtype"] == d) for d in ("DEFAULT", "FP32", "BF16", "FP16")}
+    q["hsdp_communicate_params"] = cnt(hev, lambda s: s["cp"])
+    q["hsdp_starving_history"] = sum(1 for r in hev if r["sig"]["starves"])
+    q["hsdp_comm_narrower_than_params"] = cnt(hev, has("hsdp_comm_narrower_than_params"))
+    q["hsdp_block_bytes_not_multiple_of_64"] = cnt(hev, has("hsdp_block_bytes_not_multiple_of_64"))
+    q["hsdp_owners_not_round_robin"] = sum(1 for r in hev if any(o != [i % r["spec"]["gs"] for i in range(len(o))] for o in r["sig"]["owners"]))
+    q["hsdp_rank_interleaving_jitter"] = cnt(hev, has("rank_interleaving_jitter"))
+    q["metadata_alignment_padding"] = sum(1 for c in mcases if any(c["pad"]))
+    q["metadata_nested_second_flat_parameter"] = sum(1 for c in mcases if c.get("extra"))
+    q["metadata_rank_beyond_the_data_(pure_padding)"] = sum(1 for c in mcases if c["world"] > 1 and -(-(sum(math.prod(s) + p for s, p in zip(c["shapes"], c["pad"]))) // c["world"]) * (c["world"] - 1) >= sum(math.prod(s) + p for s, p in zip(c["shapes"], c["pad"])))
+    q["metadata_flat_param_without_orig_params_rejected"] = 1 if none_outcome == "AssertionError" else 0
+    return q
 
 
 # --------------------------------------------------------------------------------------
@@ -1171,10 +1424,10 @@ def run(ck: Check) -> None:
     common.assert_repo_imports()
     ck.coq_props(extra_targets=["theories/FsdpExec.vo"])
     t0 = time.time()
-    lcases = gen_layout_cases(ck)
+    lcases = gen_layout_cases(ck) + gen_audit_layout(ck)
     mcases = gen_metadata_cases(ck)
-    fspecs = gen_fsdp_scenarios(ck)
-    hspecs = gen_hsdp_scenarios(ck)
+    fspecs = gen_fsdp_scenarios(ck) + gen_audit_fsdp(ck)
+    hspecs = gen_hsdp_scenarios(ck) + gen_audit_hsdp(ck)
     lchunks = list(common.chunks(lcases, 60))
     mchunks = list(common.chunks(mcases, 40))
     with mp.get_context("fork").Pool(16) as pool:
@@ -1220,7 +1473,8 @@ def run(ck: Check) -> None:
     mbools = _eval_terms(ck, "c07_m", META_HEADER, mterms)
     mbad = [ci for ci, bs in mbools.items() if not all(bs)]
     if mbad:
-        part_bad = [ci for ci in mbad if not all(mbools[ci][-len(mcases[ci]["shapes"]):])]
+        npart = lambda c: len(c["shapes"]) + (len(c["extra"]["shapes"]) if c.get("extra") else 0)
+        part_bad = [ci for ci in mbad if not all(mbools[ci][-npart(mcases[ci]):])]
         ci = sorted(part_bad or mbad, key=lambda x: (mcases[x]["world"], len(mcases[x]["shapes"])))[0]
         rep = {"stage": "M", "case": mcases[ci], "observed": mobs[ci], "n_disagreeing": len(mbad)}
         if part_bad:
@@ -1229,6 +1483,11 @@ def run(ck: Check) -> None:
         else:
             ck.report(None, f"model/implementation correspondence broken: compile_fsdp_parameter_metadata / torch shard infos differ from Fsdp.metadata_of_shard_info / shard_info_of in {len(mbad)} cases; the ranges still partition the parameters",
                       {"kind": "correspondence", "broken": "Fsdp.agree_metadata", "theorems_not_transferring": ["C07_metadata_partition"], **rep}, no_failing_input=True)
+
+    none_outcome = metadata_params_none_rejected()
+    if none_outcome != "AssertionError":
+        ck.report(None, f"compile_fsdp_parameter_metadata on a flat parameter without _params (use_orig_params=False): expected AssertionError, got {none_outcome}",
+                  {"kind": "property-fails", "stage": "M", "case": {"params_none": True}, "outcome": none_outcome, "predicate": "metadata extraction refuses flat parameters without original parameters"})
 
     # ---- stages R, H ---------------------------------------------------------------------
     for r in fres + hres:
@@ -1247,7 +1506,25 @@ def run(ck: Check) -> None:
     _eval_scenarios(ck, "c07_r", fev, len(R_FIELDS))
     _eval_scenarios(ck, "c07_h", hev, len(H_FIELDS))
 
-    fviol = [r for r in fev if not (r["bools"][4] and r["bools"][5])]
+    # input-side signature: several parameter groups, and a rank on which one group has no recovered piece while another has
+    def empty_group_sig(spec):
+        if not spec.get("groups"):
+            return False
+        for r in range(len(spec["cuts"]) - 1):
+            rr = rank_ranges(spec, r)
+            live = [any(rr[k][0] < rr[k][1] for k in g) for g in spec["groups"]]
+            if any(live) and not all(live):
+                return True
+        return False
+
+    fgrp = [r for r in fev if not (r["bools"][4] and r["bools"][5]) and empty_group_sig(r["spec"])]
+    if fgrp:
+        r = sorted(fgrp, key=lambda x: small_key(x["spec"]))[0]
+        ck.report(SIG_EMPTY_GROUP, f"a rank on which every parameter of ONE parameter group has an empty local shard (while another group has elements) cannot construct the optimizer "
+                  f"(AssertionError 'Some workers have no parameters to work on'): its non-empty shards are never updated instead of the empty ones being ignored "
+                  f"[{len(fgrp)} scenarios; smallest: shapes={r['spec']['shapes']} cuts={r['spec']['cuts']} groups={r['spec']['groups']}]",
+                  {"kind": "property-fails", "stage": "R", "spec": r["spec"], "checker": dict(zip(R_FIELDS, r["bools"])), "summary": r["summary"], "predicate": "C07_checkb", "n_scenarios": len(fgrp)})
+    fviol = [r for r in fev if not (r["bools"][4] and r["bools"][5]) and r not in fgrp]
     fcorr = [r for r in fev if not all(r["bools"][:4]) and r not in fviol]
     if fviol:
         r = sorted(fviol, key=lambda x: small_key(x["spec"]))[0]
@@ -1340,7 +1617,16 @@ def run(ck: Check) -> None:
         "disagreements_model_vs_implementation": {"layout": len(lbad), "metadata": len(mbad), "fsdp": len(fcorr), "hsdp": len(hcorr)},
         "checker_failures": {"fsdp": len(fviol), "hsdp_rank_starvation": len(f6), "hsdp_other": len(hviol), "rank_errors": len(ferr) + len(herr)},
         "implementation_wall_s": round(t_impl, 1),
-        "not_exercised": "the real torch FullyShardedDataParallel wrapper (needs accelerators): shards are hand-made 1-D tensors with FSDPParameterMetadata; compile_fsdp_parameter_metadata is run on stub objects carrying exactly the attributes it reads, with shard infos computed by torch's own FlatParamHandle._get_shard_metadata",
+        "not_exercised": [
+            "the real torch FullyShardedDataParallel wrapper (needs accelerators): shards are hand-made 1-D tensors with FSDPParameterMetadata; compile_fsdp_parameter_metadata is run on stub objects carrying exactly the attributes it reads, with shard infos computed by torch's own FlatParamHandle._get_shard_metadata",
+            "CUDA / NCCL paths, real process groups (the HSDP collectives run on harness/sim.py; C06's thorough tier cross-checks the simulator against gloo for the same mechanism)",
+            "HSDP with several parameter groups and HSDP shard columns without any block (the constructor refuses: IndexError in HSDPDistributor._construct_distributed_buffers where FSDP gives the optimizer's AssertionError) - the column model is per group and per non-empty column",
+            "bfloat16/float16 parameters with SOAP (QR/eigh kernels for the factor dtypes are C03's subject; known finding C03:qr-bf16-factor-no-lapack-kernel) - low-precision parameters are run with Shampoo+AdaGrad/Adam grafting and float32 factors",
+            "the executable Dist.v column model for non-float32 parameters (it computes on binary32 bit patterns): those HSDP scenarios are decided by the certified checker against the rounded serial reference only",
+            "parameters with a zero-sized dimension and order-0 parameters (outside 'order 1..4'); shapes whose numel exceeds ~100 in optimizer runs (layouts go to numel 96)",
+            "parse_fsdp_params / _partition_params (not named by the property statement)",
+        ],
+        "quantifier_audit": quantifier_audit(lcases, mcases, fev, hev, none_outcome),
     })
     ck.assumptions += [
         "harness/sim.py stands in for torch.distributed / DeviceMesh / DTensor inside the distributor modules (FSDP: only dist.get_rank; HSDP: 2-D meshes, sub-meshes, all_gather_into_tensor concatenating the group's inputs in group-rank order)",
@@ -1348,6 +1634,7 @@ def run(ck: Check) -> None:
         "HSDP per-block search directions are replayed from the implementation run (oracle) in the Dist.v model; only the distributor's own arithmetic (float32 add, bf16/fp16 rounding) is recomputed in Coq",
         "every replica of a shard column receives the same gradient shard (HSDP reduces gradients before the optimizer step)",
     ]
+    ck.notes.append(f"expected on the unchanged tree: KNOWN-FINDING {SIG_EMPTY_GROUP} (F14, findings/F14_repro.py): with several parameter groups a rank on which one group has only empty shards refuses to construct the optimizer; signature computed from the input (groups + a rank with a live and a dead group)")
     ck.notes.append(f"{SIG_STARVATION} (F6 through HSDPDistributor.update_params) was repaired in /repo: starving histories are generated on purpose and must pass; Coq witness C07_hsdp_starvation_harmless")
 
 
